@@ -44,10 +44,12 @@ Definition point_in_poly (q : pt2) (poly : list pt2) : bool :=
 
 (* ---- ray against a posed polygon ---- *)
 Record hitinfo := mkHit { h_den : Q; h_t : Q; h_pt : pt2 }.
+(* values are kept in lowest terms while evaluating (Qred x == x) *)
+Definition vred (v : vec3) : vec3 := mkV (Qred (vx v)) (Qred (vy v)) (Qred (vz v)).
 Definition ray_plane (p : pose) (r : rayq) : option hitinfo :=
-  let o := to_local p (ro r) in let d := rot_local p (rd r) in
+  let o := vred (to_local p (ro r)) in let d := vred (rot_local p (rd r)) in
   if qeqb (vz d) 0 then None
-  else let t := - vz o / vz d in Some (mkHit (vz d) t (vx o + t * vx d, vy o + t * vy d)).
+  else let t := Qred (- vz o / vz d) in Some (mkHit (vz d) t (Qred (vx o + t * vx d), Qred (vy o + t * vy d))).
 Definition ray_hits_poly (p : pose) (poly : list pt2) (r : rayq) : bool :=
   match ray_plane p r with
   | None => false
@@ -58,14 +60,22 @@ Definition ray_hits_poly (p : pose) (poly : list pt2) (r : rayq) : bool :=
 Definition seg_dist2 (q a b : pt2) : Q :=
   let dx := fst b - fst a in let dy := snd b - snd a in
   let l2 := dx * dx + dy * dy in
-  let u := if qeqb l2 0 then 0 else ((fst q - fst a) * dx + (snd q - snd a) * dy) / l2 in
+  let u := if qeqb l2 0 then 0 else Qred (((fst q - fst a) * dx + (snd q - snd a) * dy) / l2) in
   let u := qmax 0 (qmin 1 u) in
-  let ex := fst q - (fst a + u * dx) in let ey := snd q - (snd a + u * dy) in ex * ex + ey * ey.
+  let ex := Qred (fst q - (fst a + u * dx)) in let ey := Qred (snd q - (snd a + u * dy)) in ex * ex + ey * ey.
 Fixpoint outline_far (q : pt2) (vj : pt2) (l : list pt2) (m2 : Q) : bool :=
   match l with [] => true | vi :: r => qltb m2 (seg_dist2 q vj vi) && outline_far q vi r m2 end.
 (* the crossing point is farther than sqrt(m2) from every edge *)
+(* a point more than 2 mm outside the bounding rectangle of the outline is far from every edge *)
+Definition outside_bbox (q : pt2) (poly : list pt2) : bool :=
+  let m := 2 # 1000 in
+  forallb (fun v => qltb (fst v + m) (fst q)) poly || forallb (fun v => qltb (fst q + m) (fst v)) poly ||
+  forallb (fun v => qltb (snd v + m) (snd q)) poly || forallb (fun v => qltb (snd q + m) (snd v)) poly.
 Definition far_from_outline (q : pt2) (poly : list pt2) (m2 : Q) : bool :=
-  match poly with [] => true | v :: _ => outline_far q (last poly v) poly m2 end.
+  match poly with
+  | [] => true
+  | v :: _ => if qleb m2 (1 # 1000000) && outside_bbox q poly then true else outline_far q (last poly v) poly m2
+  end.
 
 (* Some answer when exact geometry decides the case with margins, None when the case lies within the
    excluded margins (grazing the plane, starting on it, crossing within 1 mm of the outline) *)
